@@ -110,31 +110,31 @@ func vfH_connect_reply() {
 }
 
 type vfDialIn struct {
-	scheme, host, path, query string
-	userinfo                  bool
-	urlStr                    string
-	hdr                       http.Header
-	hostOverride              string
-	d                         *Dialer
-	ctx                       *vfCtx
-	proxy                     int // 0 none, 1 http, 2 https
-	proxyCred                 int
+	scheme, host, path, query   string
+	userinfo                    bool
+	urlStr                      string
+	hdr                         http.Header
+	hostOverride                string
+	d                           *Dialer
+	ctx                         *vfCtx
+	proxy                       int // 0 none, 1 http, 2 https
+	proxyCred                   int
 	hookCtx, hookPlain, hookTLS bool
-	dialFail                  bool
+	dialFail                    bool
 	// reply
-	code                      int
-	status                    string
-	upg, con                  []string
-	accept                    int // 0 correct, 1 wrong (symbolic), 2 missing
-	ext                       []string
-	proto                     string
-	body                      int
-	frames                    bool
-	bigFrames                 bool
-	second                    bool
-	certName                  string // "" = valid for the name the client must verify
-	certTrusted               bool
-	nilTLSConfig              bool
+	code         int
+	status       string
+	upg, con     []string
+	accept       int // 0 correct, 1 wrong (symbolic), 2 missing
+	ext          []string
+	proto        string
+	body         int
+	frames       bool
+	bigFrames    bool
+	second       bool
+	certName     string // "" = valid for the name the client must verify
+	certTrusted  bool
+	nilTLSConfig bool
 }
 
 // vfHeadBytes renders a response head a real HTTP/1.1 parser reads back as the
